@@ -58,7 +58,7 @@ KNOWN_BAD = [
 def _leaf(sym, state, k):
     kind = sym[0]
     if kind == "n":
-        return ["sp", X.spell_value(sym[1], k), sym[1]]
+        return ["sp", X.spell_value(sym[1], k, pp=True), sym[1]]
     if kind == "c":
         return ["sp", X.CHAR_SPELL[sym[1]][k % len(X.CHAR_SPELL[sym[1]])], sym[1]]
     if kind == "M":
